@@ -229,3 +229,21 @@ Proof.
   destruct C05_flow_ex_EnvelopedData as (HW & _ & HL & _).
   apply C05_flow_EnvelopedData_unpack_bytes; [exact HW|]. apply Nat.ltb_lt. exact HL.
 Qed.
+
+(* ---- bounded number of key-derivation steps, static half: call sites of the KDFs in the regenerated source and loop-freeness of every
+   function on the unprotect path except compute_l2_key (whose loops C05_l2_loops_within_fuel / C05_bounded_kdf_partial bound by 63):
+   2 + 63 + 3 calls at most. Columns: kdf, kdf_concat, compute_l2_key, compute_kek, compute_kek_from_public_key, get_kek, _decrypt_blob,
+   loop free ---- *)
+From V Require Import Prelude.PySyntax gen.F_gkdi gen.F_e2e gen.F_cache Proofs.C05CallSites.
+Theorem C05_kdf_call_sites :
+  kdf_row k_flow_compute_l1_key = (2, 0, 0, 0, 0, 0, 0, true)%nat /\
+  kdf_row k_flow_compute_l2_key = (3, 0, 0, 0, 0, 0, 0, false)%nat /\
+  kdf_row k_flow_compute_kek = (1, 1, 0, 0, 0, 0, 0, true)%nat /\
+  kdf_row k_flow_compute_kek_from_public_key = (1, 0, 0, 1, 0, 0, 0, true)%nat /\
+  kdf_row k_flow_gke_get_kek = (1, 0, 1, 0, 1, 0, 0, true)%nat /\
+  kdf_row k_flow_decrypt_blob = (0, 0, 0, 0, 0, 1, 0, true)%nat /\
+  kdf_row k_flow_ncrypt_unprotect_secret = (0, 0, 0, 0, 0, 0, 1, true)%nat /\
+  kdf_row k_flow_kdf = (0, 0, 0, 0, 0, 0, 0, true)%nat /\
+  kdf_row k_flow_kdf_concat = (0, 0, 0, 0, 0, 0, 0, true)%nat.
+Proof. exact kdf_call_sites. Qed.
+Print Assumptions C05_kdf_call_sites.
